@@ -531,10 +531,11 @@ func (k *c03Corr) addCte(text []byte, r *c03Rev, what string) {
 	k.c.Dist(fmt.Sprintf("corr/cte/%s/accepted=%v", what, r.Accepted))
 }
 
-// a time value: String(), and what the text side reads from the encoder's spelling
-func (k *c03Corr) addTime(t compact_time.Time) {
+// a time value as compact_time builds it from the CBE fields: String(), whether cbe.Decoder accepted the document
+// holding it (validateTime), and what the text side reads from the CTE encoder's spelling of the value
+func (k *c03Corr) addTime(t compact_time.Time, cbeAccepts bool) {
 	if t.IsZeroValue() || t.Nanosecond > 999999999 {
-		k.c.Dist("corr/time/outside-model")
+		k.c.Dist(fmt.Sprintf("corr/time/outside-model/cbe-accepts=%v", cbeAccepts))
 		return
 	}
 	es := []Ev{{K: "bd"}, {K: "v", N: 0}, {K: "tm", T: t}, {K: "ed"}}
@@ -547,11 +548,16 @@ func (k *c03Corr) addTime(t compact_time.Time) {
 			note = out[2].T.String()
 		}
 	}
-	k.c.Dist(fmt.Sprintf("corr/time/problem=%s/reread=%v", c03TimeProblem(t), reread != "None"))
+	k.c.Dist(fmt.Sprintf("corr/time/problem=%s/cbe-accepts=%v/reread=%v", c03TimeProblem(t), cbeAccepts, reread != "None"))
+	if (c03TimeProblem(t) == "") != cbeAccepts {
+		k.c.Fail(Replay{Kind: "tie", Key: "C03/harness-tie/time-problem", Input: map[string]string{"time": t.String()},
+			Expect: fmt.Sprint(c03TimeProblem(t) == ""), Got: fmt.Sprint(cbeAccepts)})
+	}
 	if !k.room("time") {
 		return
 	}
-	k.add("time", cApp("CvTime", c03TimeTerm(t), cBytes([]byte(t.String())), reread), fmt.Sprintf("time %s text=%q reread=%s", t.String(), text, note))
+	k.add("time", cApp("CvTime", c03TimeTerm(t), cBytes([]byte(t.String())), cBool(cbeAccepts), reread),
+		fmt.Sprintf("time %s cbe-accepts=%v text=%q reread=%s", t.String(), cbeAccepts, text, note))
 }
 
 func (k *c03Corr) addIdent(id []byte) {
@@ -574,6 +580,10 @@ func (k *c03Corr) addMedia(mt string) {
 	out, err := c02Decode([]byte("c0\n@"+mt+"[01]"), false)
 	lexed := err == nil && len(out) == 4 && out[2].K == "media" && out[2].S == mt && bytes.Equal(out[2].Data, []byte{1})
 	k.c.Dist(fmt.Sprintf("corr/media/rules=%v/lexed=%v", rulesOK < 0, lexed))
+	if rulesOK < 0 && !lexed {
+		k.c.Fail(Replay{Kind: "media", Key: "C03/cbe-cte/" + c03Construct([]Ev{{K: "media", S: mt}}), Input: map[string]string{"mt_hex": hex.EncodeToString([]byte(mt))},
+			Expect: "a media type the validator admits can be spelled in CTE", Got: fmt.Sprintf("@%s[01] is not read back as that media", mt)})
+	}
 	if c03MediaLexable(mt) != lexed {
 		k.c.Fail(Replay{Kind: "tie", Key: "C03/harness-tie/media-lexable", Input: map[string]string{"mt_hex": hex.EncodeToString([]byte(mt))},
 			Expect: fmt.Sprint(c03MediaLexable(mt)), Got: fmt.Sprint(lexed)})
@@ -764,6 +774,74 @@ func c03MutateBytes(r *rand.Rand, doc []byte) []byte {
 	return out
 }
 
+// the first witnesses of the defect classes repaired by 40e3af2 (cbe validateTime) and afaa1e5 (rules ValidateMediaType / ValidateCustomType)
+var c03RepairedCBE = []struct{ key, docHex string }{
+	{"C03/cbe-cte/media-type-not-spellable", "81007ff300040102"},
+	{"C03/cbe-cte/media-type-not-spellable", "81007ff30161040102"},
+	{"C03/cbe-cte/media-type-is-an-array-type-name", "81007ff3026938040102"},
+	{"C03/cbe-cte/media-type-is-a-custom-type-number", "81007ff30137040102"},
+	{"C03/cbe-cte/area-location-not-spellable", "81007b1984f00278"},
+	{"C03/cbe-cte/area-location-expands-over-127-bytes", "81007b1984f0f04e2f" + strings.Repeat("79", 118)},
+	{"C03/cbe-cte/time-hour-out-of-range", "81007b0000fc"},
+	{"C03/cbe-cte/time-minute-out-of-range", "81007b00f8f0"},
+	{"C03/cbe-cte/time-second-out-of-range", "81007be885f0"},
+	{"C03/cbe-cte/time-month-out-of-range", "81007a005000"},
+	{"C03/cbe-cte/time-day-out-of-range", "81007a205000"},
+	{"C03/cbe-cte/time-year-zero", "81007a213e1f"},
+	{"C03/cbe-cte/time-utc-offset-out-of-range", "81007b1984f000a005"},
+	{"C03/cbe-cte/time-latitude-longitude-out-of-range", "81007b1984f053460000"},
+	{"C03/cbe-cte/time-nanosecond-out-of-range", "81007bfeffffff0721fc"},
+}
+var c03RepairedCTE = []struct{ key, text string }{
+	{"C03/cte-cbe/custom-type-over-32-bits", "c0 @4294967296[01]"},
+	{"C03/cte-cbe/custom-type-over-32-bits", "c0 @18446744073709551615[]"},
+	{"C03/cte-cbe/custom-type-over-32-bits", "c0 @4294967296\"x\""},
+}
+
+func (x *c03Runner) regressions() {
+	docs := [][]byte{}
+	for _, w := range c03RepairedCBE {
+		d, err := hex.DecodeString(w.docHex)
+		if err != nil {
+			panic(err)
+		}
+		docs = append(docs, d)
+	}
+	for i, r := range DecodeInChild(docs, ChildDecodeOpts{Rules: true}) {
+		w := c03RepairedCBE[i]
+		x.c.Count("repaired|"+w.docHex, true)
+		switch {
+		case r.Killed:
+			x.c.Dist("repaired/" + w.key + "/decoder-process-died")
+		case r.Err:
+			x.c.Dist("repaired/" + w.key + "/refused-by-the-binary-side")
+		default:
+			f := c03Forward(r.Evs)
+			x.c.Dist(fmt.Sprintf("repaired/%s/accepted/stage=%s", w.key, f.Stage))
+			if f.Stage != "" {
+				x.c.Fail(Replay{Kind: "from-cbe", Key: w.key, Input: map[string]string{"doc_hex": w.docHex, "text": string(f.Text), "stage": f.Stage},
+					Expect: f.Want, Got: f.Got})
+			}
+		}
+	}
+	for _, w := range c03RepairedCTE {
+		r := c03Reverse([]byte(w.text))
+		x.c.Count("repaired|"+w.text, true)
+		switch {
+		case !r.Accepted:
+			x.c.Dist("repaired/" + w.key + "/refused-by-the-text-side")
+		case r.CustomText:
+			x.c.Dist("repaired/" + w.key + "/custom-text-excluded")
+		default:
+			x.c.Dist(fmt.Sprintf("repaired/%s/accepted/stage=%s", w.key, r.Stage))
+			if r.Stage != "" {
+				x.c.Fail(Replay{Kind: "from-cte", Key: w.key, Input: map[string]string{"text_hex": hex.EncodeToString([]byte(w.text)), "text": w.text, "stage": r.Stage},
+					Expect: r.Want, Got: r.Got})
+			}
+		}
+	}
+}
+
 func c03DocOf(body ...Ev) []Ev {
 	return append(append([]Ev{{K: "bd"}, {K: "v", N: 0}}, body...), Ev{K: "ed"})
 }
@@ -896,6 +974,10 @@ func runC03(c *Ctx) {
 	x := &c03Runner{c: c, k: k}
 	idRunes := c03IdentRunes()
 
+	// ---- 0. the witnesses of the repaired defects, under their old keys: the binary side (the validator, for the
+	// custom type) has to refuse them now; should one be accepted and fail to convert it is reported under its old key
+	x.regressions()
+
 	// ---- 1. the string classes on their own: identifiers, media types
 	cl := c02GetClasses()
 	ids := [][]byte{[]byte("a"), []byte("a b"), []byte("a:b"), []byte(""), []byte("\xff"), []byte("a\xc3"), []byte("1"), []byte("-"), []byte("."), []byte("_"), []byte("a/b"), []byte("‍"), []byte("a�"),
@@ -940,26 +1022,39 @@ func runC03(c *Ctx) {
 		k.addMedia(string([]byte{byte(b)}) + "/b" + string([]byte{byte(b)}))
 	}
 
-	// ---- 2. times as the CBE reader builds them (through the real CBE encoder and decoder)
+	// ---- 2. times as compact_time builds them from the CBE fields (through the real CBE encoder and decoder)
 	times := append(c03DirectedTimes(), c03Times(c.Rng, c.Pick(150, 3000))...)
 	tdocs := [][]byte{}
+	tvals := []compact_time.Time{}
 	for _, t := range times {
-		if d := c03EncodeValid(c03DocOf(Ev{K: "tm", T: t})); d != nil {
+		if t.IsZeroValue() {
+			continue
+		}
+		if d, rej, _ := c03CbeEncode(c03DocOf(Ev{K: "tm", T: t})); rej < 0 {
 			tdocs = append(tdocs, d)
+			tvals = append(tvals, t)
+		}
+	}
+	tres := DecodeInChild(tdocs, ChildDecodeOpts{Rules: true})
+	for i, r := range tres {
+		if r.Killed {
+			c.Dist("times/decoder-process-died")
+			continue
+		}
+		accepted := !r.Err
+		if accepted && (len(r.Evs) != 4 || r.Evs[2].K != "tm" || r.Evs[2].T.String() != tvals[i].String()) {
+			// the fields were chosen inside the widths of the bit fields: what is decoded is what was encoded
+			c.Fail(Replay{Kind: "tie", Key: "C03/harness-tie/time-encoding", Input: map[string]string{"doc_hex": hex.EncodeToString(tdocs[i])},
+				Expect: tvals[i].String(), Got: evsString(r.Evs)})
+			continue
+		}
+		c.Dist(fmt.Sprintf("times/cbe-accepts=%v", accepted))
+		if i%c.Pick(2, 1) == 0 || i < 260 {
+			k.addTime(tvals[i], accepted)
 		}
 	}
 	// the three zero values as the CBE reader recognises them (the library's encoder writes them the same way)
 	tdocs = append(tdocs, cbeDoc(0x7a, 0, 0, 0), cbeDoc(0x7b, 0, 0, 0), cbeDoc(0x7c, 0, 0, 0, 0, 0))
-	tres := DecodeInChild(tdocs, ChildDecodeOpts{Rules: true})
-	for i, r := range tres {
-		if r.Killed || r.Err || len(r.Evs) != 4 || r.Evs[2].K != "tm" {
-			c.Dist("times/not-accepted-by-the-binary-side")
-			continue
-		}
-		if i%c.Pick(2, 1) == 0 || i < 200 {
-			k.addTime(r.Evs[2].T)
-		}
-	}
 	x.fromCBE(tdocs, "one-time", 0)
 
 	// ---- 3. one-value documents for the adversarial media types
@@ -970,7 +1065,8 @@ func runC03(c *Ctx) {
 		}
 		for _, es := range [][]Ev{c03DocOf(Ev{K: "media", S: mt, Data: []byte{1, 2}}),
 			c03DocOf(Ev{K: "l"}, Ev{K: "mb", S: mt}, Ev{K: "ac", N: 1, B: true}, Ev{K: "ad", Data: []byte{0xab}}, Ev{K: "ac", N: 0, B: false}, Ev{K: "pi", N: 7}, Ev{K: "e"})} {
-			if d := c03EncodeValid(es); d != nil {
+			// straight into the encoder: the verdict on the media type is the decoding side's
+			if d, rej, _ := c03CbeEncode(es); rej < 0 {
 				mdocs = append(mdocs, d)
 			}
 		}
@@ -997,6 +1093,32 @@ func runC03(c *Ctx) {
 	}
 	x.fromCBE(idocs, "identifiers", c.Pick(4, 4))
 
+	// ---- 3c. strings, resource ids and remote references over every class-boundary code point (the characters
+	// the text side has to escape), whole and chunked
+	sdocs := [][]byte{}
+	stepS := c.Pick(60, 10)
+	for i := 0; i < len(brunes); i += stepS {
+		j := i + stepS
+		if j > len(brunes) {
+			j = len(brunes)
+		}
+		chunk := string(brunes[i:j])
+		h := len(chunk) / 2
+		for h > 0 && !utf8.RuneStart(chunk[h]) {
+			h--
+		}
+		es := c03DocOf(Ev{K: "l"}, Ev{K: "a", A: events.ArrayTypeString, N: uint64(len(chunk)), Data: []byte(chunk)},
+			Ev{K: "sa", A: events.ArrayTypeResourceID, Data: []byte("x:" + chunk)}, Ev{K: "sa", A: events.ArrayTypeReferenceRemote, Data: []byte("y:" + chunk)},
+			Ev{K: "ab", A: events.ArrayTypeString}, Ev{K: "ac", N: uint64(h), B: true}, Ev{K: "ad", Data: []byte(chunk[:h])},
+			Ev{K: "ac", N: uint64(len(chunk) - h), B: false}, Ev{K: "ad", Data: []byte(chunk[h:])}, Ev{K: "e"})
+		if d := c03EncodeValid(es); d != nil {
+			sdocs = append(sdocs, d)
+		} else {
+			c.Dist("codepoints/not-rules-valid")
+		}
+	}
+	x.fromCBE(sdocs, "codepoints", c.Pick(6, 6))
+
 	// ---- 4. generated documents, plain and adversarial
 	opts := DefaultGenOpts()
 	opts.CustomText = false
@@ -1010,7 +1132,11 @@ func runC03(c *Ctx) {
 		if d := c03EncodeValid(es); d != nil {
 			gdocs = append(gdocs, d)
 		}
-		if a := c03EncodeValid(c03Adversarial(c.Rng, es, idRunes)); a != nil {
+		adv := c03Adversarial(c.Rng, es, idRunes)
+		if a := c03EncodeValid(adv); a != nil {
+			adocs = append(adocs, a)
+		} else if a, rej, _ := c03CbeEncode(adv); rej < 0 {
+			// the validator refuses the swapped strings: the document is written without it and the decoding side has to refuse it too
 			adocs = append(adocs, a)
 		}
 		// the text side's own documents for the second half (comments survive here)
